@@ -2,11 +2,13 @@ package world
 
 import (
 	"math/big"
+	"sort"
 	"strconv"
 	"strings"
 
 	vmcommon "github.com/ElrondNetwork/elrond-vm-common"
 	"github.com/ElrondNetwork/elrond-vm-common/builtInFunctions"
+	"github.com/ElrondNetwork/elrond-vm-common/container"
 	"github.com/ElrondNetwork/elrond-vm-common/data"
 	"github.com/ElrondNetwork/elrond-vm-common/data/esdt"
 	"github.com/ElrondNetwork/elrond-vm-common/parsers"
@@ -41,6 +43,7 @@ func init() {
 		"globalmeta":   opGlobalMeta,
 		"addr":         opAddr,
 		"safesub":      opSafeSub,
+		"mapseq":       opMapSeq,
 	}
 }
 
@@ -627,4 +630,71 @@ func opSafeSub(_ *World, a []string) string {
 		return "err"
 	}
 	return "ok " + strconv.FormatUint(r, 10)
+}
+
+// opMapSeq: `mapseq <op> …` - the operations run one after the other on a fresh container.MutexMap (keys and values are
+// numbers): g:k  i:k:v  s:k:v  r:k  l  k ; one output per operation (Keys sorted: Go's map order is not an observation).
+func opMapSeq(_ *World, a []string) string {
+	mm := container.NewMutexMap()
+	outs := make([]string, 0, len(a))
+	for _, t := range a {
+		f := strings.Split(t, ":")
+		num := func(i int) (uint64, bool) {
+			if i >= len(f) {
+				return 0, false
+			}
+			return parseU64(f[i])
+		}
+		switch {
+		case f[0] == "g" && len(f) == 2:
+			k, ok := num(1)
+			if !ok {
+				return obsBadOp
+			}
+			v, found := mm.Get(k)
+			if !found {
+				outs = append(outs, "-")
+			} else {
+				outs = append(outs, strconv.FormatUint(v.(uint64), 10))
+			}
+		case f[0] == "i" && len(f) == 3:
+			k, ok1 := num(1)
+			v, ok2 := num(2)
+			if !ok1 || !ok2 {
+				return obsBadOp
+			}
+			outs = append(outs, b01(mm.Insert(k, v)))
+		case f[0] == "s" && len(f) == 3:
+			k, ok1 := num(1)
+			v, ok2 := num(2)
+			if !ok1 || !ok2 {
+				return obsBadOp
+			}
+			mm.Set(k, v)
+			outs = append(outs, ".")
+		case f[0] == "r" && len(f) == 2:
+			k, ok := num(1)
+			if !ok {
+				return obsBadOp
+			}
+			mm.Remove(k)
+			outs = append(outs, ".")
+		case f[0] == "l" && len(f) == 1:
+			outs = append(outs, strconv.Itoa(mm.Len()))
+		case f[0] == "k" && len(f) == 1:
+			var ks []uint64
+			for _, k := range mm.Keys() {
+				ks = append(ks, k.(uint64))
+			}
+			sort.Slice(ks, func(i, j int) bool { return ks[i] < ks[j] })
+			parts := make([]string, len(ks))
+			for i, k := range ks {
+				parts[i] = strconv.FormatUint(k, 10)
+			}
+			outs = append(outs, "["+strings.Join(parts, "+")+"]")
+		default:
+			return obsBadOp
+		}
+	}
+	return "ok " + strings.Join(outs, " ")
 }
